@@ -79,6 +79,7 @@ func buildC20(tier string) sim.Scenario {
 		good := camPlan{step: -1, user: tg.user, pw: tg.pw, packets: 20, gap: 20 * time.Millisecond, auth: map[bool]string{true: "digest", false: ""}[tg.user != ""]}
 		farm = &camFarm{w: w, plans: []camPlan{plan, good}}
 		simnet.Dial = farm.dial
+		defer farm.closeAll() // a camera that never stops sending must not outlive the script (the run would only end at the step cap)
 		endless := plan.step == -1 && plan.auth != "repeated" && tp.OneIn(4)
 		if endless {
 			plan.packets, plan.gap = 3000, 500*time.Millisecond
